@@ -1,8 +1,24 @@
-"""C01 — XLSX: every cell reads back at its position, with its value and type."""
+"""C01 — XLSX: every cell reads back at its position, with its value and type.
+fixture leg (leg 2 on real-world files): every worksheet of /repo/tests/*.xlsx|xlsm is tokenised by the independent
+tokeniser harness/src/fixtures.rs (row / rowend / c tokens, explicit-or-absent r, t attribute, children order, lexical
+class of <v>) and Trace_XlsxSheet.TFixture re-runs the cursor machine with the coarse-kind typing (RStepK).
+sensitivity (fixture leg ALONE, VERIF_ONLY=fixtures bin/mutant C01 ...@src/xlsx/cells_reader.rs): 3 of 3 KILLED
+sensitivity:  s/Some(b"str") => {/Some(b"strx") => {/      s/self.col_index = 0;/self.col_index = 1;/
+sensitivity:  s/Ok(DataRef::Bool(v != "0"))/Ok(DataRef::String(v))/
+"""
 LEVEL = "model_checking"
 
 
 def run(ctx):
+    import os
+    if os.environ.get("VERIF_ONLY") == "fixtures":      # sensitivity experiments: the fixture leg alone
+        ctx.fixture_leg("xlsx", "xlsx", "Trace_XlsxSheet", "Trace_XlsxSheet.cfg")
+        return
+    run_model_legs(ctx)
+    ctx.fixture_leg("xlsx", "xlsx", "Trace_XlsxSheet", "Trace_XlsxSheet.cfg")
+
+
+def run_model_legs(ctx):
     ctx.rules.append(
         "MC_XlsxSheet: writer||reader product over sparse documents; every complete behaviour (token list: "
         "explicit/implicit row and cell refs (ECMA cursor rule, and the lax style: r on no row and on every cell), empty rows/cells in gaps, dimension variants, all cell forms, "
